@@ -34,6 +34,10 @@ def pool(ctx):
                                ("401015", "pop", ["%rbp"]), ("401016", "ret", [])], g)
     obj = objfuzz.assemble(ctx.scratch, [(".text", [0x55, 0x48, 0x89, 0xe5, 0xe8, 0, 0, 0, 0, 0x5d, 0xc3]),
                                          (".text2", [0x50, 0x58, 0xc3])], name="c14")
+    # a second listing: operations on different inputs, so that a history re-using one input PATH rewrites it with
+    # different content (something remembered per path would show as a dependence on the history)
+    text2 = gen.render_listing([("402000", "xor", ["%eax", "%eax"]), ("402002", "mov", ["%rdi", "%rax"]), ("402005", "call", ["401030 <h>"]),
+                                ("40200a", "pop", ["%rbx"]), ("40200b", "nop", []), ("40200c", "ret", [])], g)
     ops = []
 
     def op(doc, **kw):
@@ -41,6 +45,9 @@ def pool(ctx):
         o.update(kw)
         ops.append(o)
     op({"pattern": ["mov"]})
+    op({"pattern": ["mov"]}, text=text2)
+    op({"pattern": ["pop", {"$or": ["nop", "ret"]}]}, text=text2, ret="stream")
+    op({"config": {"valid_addr_range": {"min": "401000", "max": "401050"}}, "pattern": [{"call": ["valid_addr"]}]}, text=text2, addr_only=True)
     op({"config": {"mnemonics-full-match": True}, "pattern": ["mov"]})
     op({"config": {"operands-full-match": True, "mnemonics-full-match": True}, "pattern": [{"mov": ["rax"]}]})
     op({"pattern": [{"mov": ["rax"]}]}, ret="bool", mode="first")
@@ -83,7 +90,7 @@ def model_run(ctx, op, obj_texts):
 
 def run(ctx, factor):
     g, rep = ctx.g, ctx.report
-    rep.rule = ("a pool of 23 complete operations (differing in full-match flags, sections, address ranges, instruction/"
+    rep.rule = ("a pool of 26 complete operations on two different listings and one object file (differing in full-match flags, sections, address ranges, instruction/"
                 "operand captures, in-file and extra-file macros, assembly/binary input, modes; five of them failing, some "
                 "after having written part of the config) ; random sequences of 2-6 (thorough: up to 10) operations run in "
                 "ONE interpreter, every result compared with the same operation run alone in a FRESH interpreter, and with "
